@@ -97,7 +97,7 @@ def units(tier, seed):
 
 def bounds(tier, seed):
     return {"rotations": len(AXES) * len(ANGLES), "input_forms": FORMS, "translations": len(TRANS), "transforms": len(menu()),
-            "pair_menu": len(menu()) if tier == "thorough" else len(menu()[::5] + menu()[2::35]), "registry_subsets": 8, "frames": [f.value for f in FR]}
+            "pair_menu": len(menu()) if tier == "thorough" else len(menu()[::5] + menu()[2::35]), "registry_subsets": 16, "frames": [f.value for f in FR]}
 
 
 def run_unit(unit, acc):
@@ -131,7 +131,7 @@ def run_unit(unit, acc):
         rec([unit["first"]])
     else:
         for triple in range(len(TRIPLES)):
-            for mask in range(8):
+            for mask in range(16):   # bit 8: a non-identity same-frame matrix A->A is registered as well (X-to-X queries still return the input)
                 for s, d in itertools.product(range(3), repeat=2):
                     for spell in ("enum", "str", "key", "mixed"):
                         check_case(dict(kind="registry", mask=mask, src=s, dst=d, spell=spell, triple=triple), acc)
@@ -363,6 +363,9 @@ def check_case(case, acc):
             H, M = build(e3, "quat", B, C)
             reg.append(H)
             mats[(1, 2)] = M
+        if case["mask"] & 8:
+            H, M = build((2, 3, 2), "quat", A, A)
+            reg.append(H)
         td = TransformDict(reg)
         s, d = case["src"], case["dst"]
         sp = case["spell"]
@@ -390,7 +393,7 @@ def check_case(case, acc):
         except Exception as ex:  # noqa
             got, outcome = None, type(ex).__name__
         acc.compared()
-        if sp == "mixed" and outcome != "ok" and how != "missing":
+        if sp == "mixed" and (outcome != "ok" or (s == d and case["mask"] & 8)) and how != "missing":
             # upper-case strings are documented for FrameID.from_value only; registry lookups by upper-case str are not demanded
             acc.skip("upper-case-key")
         elif how == "missing":
